@@ -1,6 +1,6 @@
 """C08 - tokenisation and literals are faithful to the text."""
 import itertools, os, re
-import vlib, front, nlast, noise
+import progcheck, vlib, front, nlast, noise
 
 COQ_TARGETS = ["props/C08.vo", "corr/CorrFront.vo"]
 RULE = ("(1) token sequences over the full regenerated vocabulary (keywords, every one- and two-character token, "
@@ -148,6 +148,23 @@ def run(ctx, log):
         if o != "ERR Syntax":
             ctx.violate("an illegal character / unterminated string did not make the program a syntax error (input silently dropped)", source=s, observed=o[:200], expected="ERR Syntax")
     front.front_corr(ctx, bad, ("tok", "parse"), log, label="malformed")
+    # integer literals: every spelling inside the 61-bit range denotes its number (leading zeros included), every
+    # one beyond it is rejected whatever it is congruent to modulo a power of two
+    inside = [0, 1, 9, 10, 255, 256, 65535, 65536, 2 ** 31 - 1, 2 ** 31, 2 ** 32, 2 ** 53, 2 ** 59, 2 ** 60 - 2, 2 ** 60 - 1] + [rng.randrange(2 ** 60) for _ in range(60)]
+    ilits = [str(v) for v in inside] + ["0" * rng.randint(1, 25) + str(v) for v in inside[:20]]
+    iexp = ["OK (Expr(Int(%d)))" % v for v in inside] + ["OK (Expr(Int(%d)))" % v for v in inside[:20]]
+    for v in progcheck.huge_literal_family() + [2 ** 64 * rng.randrange(1, 2 ** 40) + rng.randrange(2 ** 60) for _ in range(200)]:
+        ilits.append(str(v))
+        iexp.append("ERR Syntax")
+        ilits.append("stel groot = %d; groot + 1" % v)
+        iexp.append("ERR Syntax")
+    iobs = vlib.nlh("parse", [vlib.hexs(l) for l in ilits], tag="c08i")
+    for l, e, o in zip(ilits, iexp, iobs):
+        ctx.seen(("int-literal", l))
+        ctx.count("int-literals")
+        if o != e:
+            ctx.violate("an integer literal does not denote the number written (or one beyond the range was accepted)", source=l, observed=o[:200], expected=e)
+    front.front_corr(ctx, ilits[: 400 if ctx.quick else len(ilits)], ("tok", "parse"), log, label="int-literals")
     ctx.sample(dict(source=texts[200], tokens=obs[200][:200]))
     ctx.sample(dict(literal=lits[700], tree=pobs[700]))
 
